@@ -204,14 +204,23 @@ def check_dispatch(m, where, root, prefix):
         def walk_Node(self, node, *a, **k):
             log.append(('Node', type(node).__name__, [c.__name__ for c in type(node).__mro__]))
             return node
-        ns['walk_Node'] = walk_Node
-        W = type('W', (wcls,), ns)
-        W().walk(tops[0])
-        for used, cname, mro in log:
-            want = next((b for b in mro if b in bases), 'Node')
-            # the most specific declared base in MRO order wins
-            if used != want:
-                m.violation(f'nav/walker-dispatch/{wcls.__name__}', node=cname, used=f'walk_{used}', want=f'walk_{want}', **where)
+        # histories: the specific walker class is defined and used at once; or it derives from a generic walker class
+        # that has already walked the same tree (walker look-ups are remembered per class)
+        for history in ('fresh', 'generic-parent-walked-first'):
+            if history == 'fresh':
+                W = type('W', (wcls,), dict(ns, walk_Node=walk_Node))
+            else:
+                P = type('P', (wcls,), {'walk_Node': walk_Node})
+                P().walk(tops[0])
+                log.clear()
+                W = type('W', (P,), dict(ns))
+            W().walk(tops[0])
+            for used, cname, mro in log:
+                want = next((b for b in mro if b in bases), 'Node')
+                # the most specific declared base in MRO order wins
+                if used != want:
+                    m.violation(f'nav/walker-dispatch/{wcls.__name__}/{history}', node=cname, used=f'walk_{used}', want=f'walk_{want}', **where)
+            log.clear()
 
 
 def check_parseinfo(m, where, model, text):
